@@ -149,9 +149,15 @@ def l1(part, r, n):
                 if f1 != f2 or bytes(after2) != b' r' or bytes(after) != b' r':
                     part.violation('monitor', f'flag round trip {fl!r} -> {bytes(f1)!r} -> {bytes(f2)!r}', dict(level='L1', flag=fl.decode()), signature='rt-flag')
                 dtxt = b'"%2d-%s-%04d %02d:%02d:%02d %s%02d%02d"' % (r.randint(1, 28), r.choice(['Jan', 'Feb', 'Jul', 'Dec']).encode(), r.randint(1971, 2037), r.randint(0, 23),
-                                                                     r.randint(0, 59), r.randint(0, 59), r.choice([b'+', b'-']), r.randint(0, 12), r.choice([0, 30]))
+                                                                     r.randint(0, 59), r.randint(0, 59), r.choice([b'+', b'-']), r.randint(0, 12), r.choice([0, 30, 30, 45, 1, 59]))
                 d1, after = DateTime.parse(dtxt + b' r', Params())
                 d2, after2 = DateTime.parse(bytes(d1) + b' r', Params())
+                # a parsed value replays its own spelling; what is stored and reported later (INTERNALDATE) is written from the value
+                fresh = bytes(DateTime(d1.value))
+                d3, after3 = DateTime.parse(fresh + b' r', Params())
+                if d3.value != d1.value or d3.value.utcoffset() != d1.value.utcoffset() or bytes(after3) != b' r':
+                    part.violation('monitor', f'date-time {dtxt!r} written from its value is {fresh!r}, which reads back as {d3.value} (was {d1.value})', dict(level='L1', date=dtxt.decode()),
+                                   signature='rt-datetime-fresh')
                 if d1.value != d2.value or bytes(after2) != b' r' or bytes(after) != b' r':
                     part.violation('monitor', f'date-time round trip {dtxt!r} -> {bytes(d1)!r} -> {d2.value}', dict(level='L1', date=dtxt.decode()), signature='rt-datetime')
             part.stat('l1-rounds')
